@@ -25,6 +25,33 @@ type mbCastFn struct {
 	allowP  types.Object // the bool parameter
 	norm    *mbNorm
 	errType string // "interrupt" | name of the non-interrupt error struct
+	an      *mbAn
+}
+
+// bindRecArgs: how a recursive call is named in forms rendered by n:
+// value argument → type argument.
+func (cf *mbCastFn) bindRecArgs(n *mbNorm) {
+	l, an := cf.l, cf.an
+	n.recArgs = func(call *ast.CallExpr) string {
+		var vs, ts string
+		for _, a := range call.Args {
+			t := l.info.TypeOf(a)
+			switch {
+			case l.isValueIface(t):
+				vs = n.str(a)
+			case an.isTypeIface(t) || an.byType[mbNamedObj(t)] != nil:
+				ts = n.str(a)
+			}
+		}
+		return vs + " as " + ts
+	}
+}
+
+func (cf *mbCastFn) normOf(st *mbCastState) *mbNorm {
+	if st != nil && st.norm != nil {
+		return st.norm
+	}
+	return cf.norm
 }
 
 type mbCastState struct {
@@ -34,6 +61,23 @@ type mbCastState struct {
 	sampleImp *mbImpl
 	env       map[types.Object]constant.Value
 	rec       []string
+	depth     int
+	norm      *mbNorm // normaliser of the function the path is in
+	// parameters of an executed helper that stand for the cast function's own
+	// (value, type, allowCasts) parameters
+	alias map[types.Object]types.Object
+}
+
+// res: the cast function's parameter that o stands for (o itself otherwise).
+func (s *mbCastState) res(o types.Object) types.Object {
+	for i := 0; i < 4; i++ {
+		t, ok := s.alias[o]
+		if !ok {
+			break
+		}
+		o = t
+	}
+	return o
 }
 
 func (s *mbCastState) clone() *mbCastState {
@@ -43,7 +87,71 @@ func (s *mbCastState) clone() *mbCastState {
 		o.env[k] = v
 	}
 	o.rec = append([]string(nil), s.rec...)
+	o.alias = make(map[types.Object]types.Object, len(s.alias))
+	for k, v := range s.alias {
+		o.alias[k] = v
+	}
 	return &o
+}
+
+// enter: the state in which the body of helper hd runs when called by `call`
+// in state st: parameters that receive the cast function's value / type /
+// allowCasts parameter are aliases of them, parameters that receive a constant
+// are bound to it.
+func (cf *mbCastFn) enter(st *mbCastState, call *ast.CallExpr, hd *ast.FuncDecl) *mbCastState {
+	info := cf.l.info
+	ns := st.clone()
+	ns.norm = cf.normOf(st).subNorm(call, hd, 0)
+	ns.norm.selfFn = cf.fn
+	cf.bindRecArgs(ns.norm)
+	i := 0
+	for _, f := range hd.Type.Params.List {
+		for _, nm := range f.Names {
+			if i < len(call.Args) {
+				po := info.Defs[nm]
+				a := ast.Unparen(call.Args[i])
+				bound := false
+				if id, ok := a.(*ast.Ident); ok {
+					switch src := st.res(info.Uses[id]); src {
+					case cf.valP, cf.typP, cf.allowP:
+						if src != nil {
+							ns.alias[po] = src
+							bound = true
+						}
+					}
+				}
+				if !bound {
+					if v := cf.eval(st, a); v != nil {
+						ns.env[po] = v
+					} else {
+						delete(ns.env, po)
+					}
+				}
+			}
+			i++
+		}
+	}
+	return ns
+}
+
+// helperOf: call is a call of a library function with a body that is neither
+// the cast function itself nor a value / interrupt constructor.
+func (cf *mbCastFn) helperOf(call *ast.CallExpr) *ast.FuncDecl {
+	if cf.isSelfCall(call) != nil {
+		return nil
+	}
+	fn := CalleeOf(cf.l.info, call)
+	if fn == nil {
+		return nil
+	}
+	hd := cf.l.decls[fn]
+	if hd == nil || hd.Body == nil || hd.Recv != nil {
+		return nil
+	}
+	if cf.l.ctorOf(fn) != nil || cf.l.errClass(call) != "" {
+		return nil
+	}
+	return hd
 }
 
 // mbFindCast resolves the recursive worker behind the exported DeepCast.
@@ -99,20 +207,8 @@ func mbFindCast(l *mbLib, an *mbAn) *mbCastFn {
 		fatalf("anchor unresolved: parameters (Value, Type, bool) of %s.%s", l.rel, fd.Name.Name)
 	}
 	cf.norm = mbNewNorm(l, fd)
-	cf.norm.recArgs = func(call *ast.CallExpr) string {
-		// value argument → type argument of the recursive call
-		var vs, ts string
-		for _, a := range call.Args {
-			t := l.info.TypeOf(a)
-			switch {
-			case l.isValueIface(t):
-				vs = cf.norm.str(a)
-			case an.isTypeIface(t) || an.byType[mbNamedObj(t)] != nil:
-				ts = cf.norm.str(a)
-			}
-		}
-		return vs + " as " + ts
-	}
+	cf.an = an
+	cf.bindRecArgs(cf.norm)
 	sig := cf.fn.Type().(*types.Signature)
 	cf.errType = "interrupt"
 	if ptr, ok := sig.Results().At(1).Type().(*types.Pointer); ok {
@@ -140,7 +236,7 @@ func (cf *mbCastFn) eval(st *mbCastState, e ast.Expr) constant.Value {
 	switch x := e.(type) {
 	case *ast.Ident:
 		o := info.Uses[x]
-		if o == cf.allowP {
+		if st.res(o) == cf.allowP {
 			return constant.MakeBool(st.allow)
 		}
 		if v, ok := st.env[o]; ok {
@@ -218,10 +314,19 @@ func (cf *mbCastFn) eval(st *mbCastState, e ast.Expr) constant.Value {
 			}
 			return nil
 		}
+		// a one-line helper of the library (`return <expr>`): its expression
+		// with the parameters bound
+		if hd := cf.helperOf(x); hd != nil && st.depth < 3 && len(hd.Body.List) == 1 {
+			if r, ok := hd.Body.List[0].(*ast.ReturnStmt); ok && len(r.Results) == 1 {
+				ns := cf.enter(st, x, hd)
+				ns.depth = st.depth + 1
+				return cf.eval(ns, r.Results[0])
+			}
+		}
 		// val.Kind() / typ.Kind()
 		if sel, ok := x.Fun.(*ast.SelectorExpr); ok && sel.Sel.Name == "Kind" && len(x.Args) == 0 {
 			if id, ok := ast.Unparen(sel.X).(*ast.Ident); ok {
-				switch info.Uses[id] {
+				switch st.res(info.Uses[id]) {
 				case cf.valP:
 					return st.v
 				case cf.typP:
@@ -234,7 +339,7 @@ func (cf *mbCastFn) eval(st *mbCastState, e ast.Expr) constant.Value {
 		if st.sample != nil {
 			base := ast.Unparen(x.X)
 			if ta, ok := base.(*ast.TypeAssertExpr); ok {
-				if id, ok := ast.Unparen(ta.X).(*ast.Ident); ok && info.Uses[id] == cf.valP {
+				if id, ok := ast.Unparen(ta.X).(*ast.Ident); ok && st.res(info.Uses[id]) == cf.valP {
 					if im := cf.l.implOfType(info.TypeOf(ta.Type)); im != nil && im == st.sampleImp {
 						return st.sample
 					}
@@ -270,145 +375,167 @@ func (cf *mbCastFn) cell(v, t constant.Value, allow bool, sample constant.Value,
 		ast.Inspect(e, func(n ast.Node) bool {
 			if ce, ok := n.(ast.Expr); ok {
 				if call := cf.isSelfCall(ce); call != nil {
-					st.rec = append(st.rec, "recurse("+cf.norm.recArgs(call)+")")
+					st.rec = append(st.rec, "recurse("+cf.normOf(st).recArgs(call)+")")
 					return false
 				}
 			}
 			return true
 		})
 	}
-	w := &Walker[*mbCastState]{
-		Clone:   func(s *mbCastState) *mbCastState { return s.clone() },
-		IsPanic: func(s ast.Stmt) bool { return IsPanicCall(info, s) },
-		OnCond: func(st *mbCastState, cond ast.Expr, taken bool) (*mbCastState, bool) {
-			if v := cf.eval(st, cond); v != nil && v.Kind() == constant.Bool {
-				return st, constant.BoolVal(v) == taken
-			}
-			return st, true
-		},
-		OnCase: func(st *mbCastState, sw *ast.SwitchStmt, vals, others []ast.Expr) (*mbCastState, bool) {
-			tag := cf.eval(st, sw.Tag)
-			if tag == nil {
+	overflow, unsupported := false, token.NoPos
+	var run func(fd *ast.FuncDecl, st *mbCastState)
+	run = func(fd *ast.FuncDecl, start *mbCastState) {
+		w := &Walker[*mbCastState]{
+			Clone:   func(s *mbCastState) *mbCastState { return s.clone() },
+			IsPanic: func(s ast.Stmt) bool { return IsPanicCall(info, s) },
+			OnCond: func(st *mbCastState, cond ast.Expr, taken bool) (*mbCastState, bool) {
+				if v := cf.eval(st, cond); v != nil && v.Kind() == constant.Bool {
+					return st, constant.BoolVal(v) == taken
+				}
 				return st, true
-			}
-			match := func(list []ast.Expr) (hit bool, unknown bool) {
-				for _, ve := range list {
-					cv := cf.eval(st, ve)
-					if cv == nil {
-						unknown = true
-						continue
-					}
-					if tag.Kind() == constant.Bool || cv.Kind() == constant.Bool {
-						if tag.Kind() == cv.Kind() && constant.BoolVal(tag) == constant.BoolVal(cv) {
-							hit = true
-						}
-						continue
-					}
-					if constant.Compare(tag, token.EQL, cv) {
-						hit = true
-					}
+			},
+			OnCase: func(st *mbCastState, sw *ast.SwitchStmt, vals, others []ast.Expr) (*mbCastState, bool) {
+				tag := cf.eval(st, sw.Tag)
+				if tag == nil {
+					return st, true
 				}
-				return
-			}
-			if vals == nil {
-				hit, unknown := match(others)
-				return st, !hit || unknown
-			}
-			hit, unknown := match(vals)
-			return st, hit || unknown
-		},
-		OnStmt: func(st *mbCastState, s ast.Stmt) (*mbCastState, bool) {
-			switch x := s.(type) {
-			case *ast.AssignStmt:
-				for _, r := range x.Rhs {
-					noteRec(st, r)
-				}
-				for i, lhs := range x.Lhs {
-					id, ok := lhs.(*ast.Ident)
-					if !ok {
-						continue
-					}
-					o := info.Defs[id]
-					if o == nil {
-						o = info.Uses[id]
-					}
-					if o == nil {
-						continue
-					}
-					if len(x.Lhs) == len(x.Rhs) && (x.Tok == token.DEFINE || x.Tok == token.ASSIGN) {
-						if v := cf.eval(st, x.Rhs[i]); v != nil {
-							st.env[o] = v
+				match := func(list []ast.Expr) (hit bool, unknown bool) {
+					for _, ve := range list {
+						cv := cf.eval(st, ve)
+						if cv == nil {
+							unknown = true
 							continue
 						}
+						if tag.Kind() == constant.Bool || cv.Kind() == constant.Bool {
+							if tag.Kind() == cv.Kind() && constant.BoolVal(tag) == constant.BoolVal(cv) {
+								hit = true
+							}
+							continue
+						}
+						if constant.Compare(tag, token.EQL, cv) {
+							hit = true
+						}
 					}
-					delete(st.env, o)
+					return
 				}
-			case *ast.DeclStmt:
-				if gd, ok := x.Decl.(*ast.GenDecl); ok {
-					for _, sp := range gd.Specs {
-						vs, ok := sp.(*ast.ValueSpec)
+				if vals == nil {
+					hit, unknown := match(others)
+					return st, !hit || unknown
+				}
+				hit, unknown := match(vals)
+				return st, hit || unknown
+			},
+			OnStmt: func(st *mbCastState, s ast.Stmt) (*mbCastState, bool) {
+				switch x := s.(type) {
+				case *ast.AssignStmt:
+					for _, r := range x.Rhs {
+						noteRec(st, r)
+					}
+					for i, lhs := range x.Lhs {
+						id, ok := lhs.(*ast.Ident)
 						if !ok {
 							continue
 						}
-						for i, nm := range vs.Names {
-							o := info.Defs[nm]
-							if i < len(vs.Values) {
-								if v := cf.eval(st, vs.Values[i]); v != nil {
-									st.env[o] = v
-								}
+						o := info.Defs[id]
+						if o == nil {
+							o = info.Uses[id]
+						}
+						if o == nil {
+							continue
+						}
+						if len(x.Lhs) == len(x.Rhs) && (x.Tok == token.DEFINE || x.Tok == token.ASSIGN) {
+							if v := cf.eval(st, x.Rhs[i]); v != nil {
+								st.env[o] = v
 								continue
 							}
-							if b, ok := o.Type().Underlying().(*types.Basic); ok {
-								switch {
-								case b.Info()&types.IsBoolean != 0:
-									st.env[o] = constant.MakeBool(false)
-								case b.Info()&types.IsInteger != 0:
-									st.env[o] = constant.MakeInt64(0)
-								case b.Info()&types.IsFloat != 0:
-									st.env[o] = constant.MakeFloat64(0)
-								case b.Info()&types.IsString != 0:
-									st.env[o] = constant.MakeString("")
+						}
+						delete(st.env, o)
+					}
+				case *ast.DeclStmt:
+					if gd, ok := x.Decl.(*ast.GenDecl); ok {
+						for _, sp := range gd.Specs {
+							vs, ok := sp.(*ast.ValueSpec)
+							if !ok {
+								continue
+							}
+							for i, nm := range vs.Names {
+								o := info.Defs[nm]
+								if i < len(vs.Values) {
+									if v := cf.eval(st, vs.Values[i]); v != nil {
+										st.env[o] = v
+									}
+									continue
+								}
+								if b, ok := o.Type().Underlying().(*types.Basic); ok {
+									switch {
+									case b.Info()&types.IsBoolean != 0:
+										st.env[o] = constant.MakeBool(false)
+									case b.Info()&types.IsInteger != 0:
+										st.env[o] = constant.MakeInt64(0)
+									case b.Info()&types.IsFloat != 0:
+										st.env[o] = constant.MakeFloat64(0)
+									case b.Info()&types.IsString != 0:
+										st.env[o] = constant.MakeString("")
+									}
 								}
 							}
 						}
 					}
+				case *ast.ReturnStmt:
+					for _, r := range x.Results {
+						noteRec(st, r)
+					}
+				case *ast.ExprStmt:
+					noteRec(st, x.X)
 				}
-			case *ast.ReturnStmt:
-				for _, r := range x.Results {
-					noteRec(st, r)
+				return st, true
+			},
+			Exit: func(st *mbCastState, o outcome) {
+				lab := ""
+				switch o.kind {
+				case cPanic:
+					lab = "PANIC"
+				case cReturn:
+					// `return helper(…)`: a case split off into its own function
+					if len(o.ret.Results) == 1 && st.depth < 3 {
+						if call, ok := ast.Unparen(o.ret.Results[0]).(*ast.CallExpr); ok {
+							if hd := cf.helperOf(call); hd != nil {
+								ns := cf.enter(st, call, hd)
+								ns.depth = st.depth + 1
+								run(hd, ns)
+								return
+							}
+						}
+					}
+					lab = cf.classify(st, o.ret, errClasses)
+				default:
+					lab = "falls off the end"
 				}
-			case *ast.ExprStmt:
-				noteRec(st, x.X)
-			}
-			return st, true
-		},
-		Exit: func(st *mbCastState, o outcome) {
-			lab := ""
-			switch o.kind {
-			case cPanic:
-				lab = "PANIC"
-			case cReturn:
-				lab = cf.classify(st, o.ret, errClasses)
-			default:
-				lab = "falls off the end"
-			}
-			if lab == "" {
-				return
-			}
-			rec := mbUniq(st.rec)
-			sort.Strings(rec)
-			if len(rec) > 0 && !strings.HasPrefix(lab, "delegate") {
-				lab += " after " + strings.Join(rec, ", ")
-			}
-			set[lab] = true
-		},
+				if lab == "" {
+					return
+				}
+				rec := mbUniq(st.rec)
+				sort.Strings(rec)
+				if len(rec) > 0 && !strings.HasPrefix(lab, "delegate") {
+					lab += " after " + strings.Join(rec, ", ")
+				}
+				set[lab] = true
+			},
+		}
+		w.Run(fd.Body, start)
+		if w.Overflow {
+			overflow = true
+		}
+		if len(w.Unsupported) > 0 && unsupported == token.NoPos {
+			unsupported = w.Unsupported[0]
+		}
 	}
-	w.Run(cf.fd.Body, init)
-	if w.Overflow {
+	run(cf.fd, init)
+	if overflow {
 		return nil, errClasses, "path enumeration overflow"
 	}
-	if len(w.Unsupported) > 0 {
-		return nil, errClasses, "unsupported control flow at " + cf.l.c.Pos(w.Unsupported[0])
+	if unsupported != token.NoPos {
+		return nil, errClasses, "unsupported control flow at " + cf.l.c.Pos(unsupported)
 	}
 	for s := range set {
 		labels = append(labels, s)
@@ -422,9 +549,9 @@ func (cf *mbCastFn) classify(st *mbCastState, r *ast.ReturnStmt, errClasses map[
 	info := cf.l.info
 	if len(r.Results) == 1 {
 		if call := cf.isSelfCall(r.Results[0]); call != nil {
-			return "delegate:recurse(" + cf.norm.recArgs(call) + ")"
+			return "delegate:recurse(" + cf.normOf(st).recArgs(call) + ")"
 		}
-		return "return " + cf.norm.str(r.Results[0])
+		return "return " + cf.normOf(st).str(r.Results[0])
 	}
 	if len(r.Results) != 2 {
 		return "return ?"
@@ -444,11 +571,11 @@ func (cf *mbCastFn) classify(st *mbCastState, r *ast.ReturnStmt, errClasses map[
 		return "error"
 	}
 	if !mbIsNil(info, r1) {
-		return "return " + cf.norm.str(r0) + ", " + cf.norm.str(r1)
+		return "return " + cf.normOf(st).str(r0) + ", " + cf.normOf(st).str(r1)
 	}
 	// success
 	if u, ok := r0.(*ast.UnaryExpr); ok && u.Op == token.AND {
-		if id, ok := ast.Unparen(u.X).(*ast.Ident); ok && info.Uses[id] == cf.valP {
+		if id, ok := ast.Unparen(u.X).(*ast.Ident); ok && st.res(info.Uses[id]) == cf.valP {
 			return "identity"
 		}
 	}
@@ -461,23 +588,23 @@ func (cf *mbCastFn) classify(st *mbCastState, r *ast.ReturnStmt, errClasses map[
 		if len(call.Args) == 1 {
 			a := ast.Unparen(call.Args[0])
 			if u, ok := a.(*ast.UnaryExpr); ok && u.Op == token.AND {
-				if id, ok := ast.Unparen(u.X).(*ast.Ident); ok && info.Uses[id] == cf.valP {
+				if id, ok := ast.Unparen(u.X).(*ast.Ident); ok && st.res(info.Uses[id]) == cf.valP {
 					return "wrap-unchecked→" + name
 				}
 			}
 			if v := cf.eval(st, a); v != nil {
 				return "convert→" + name + "(" + v.String() + ")"
 			}
-			return "build→" + name + "(" + cf.norm.str(a) + ")"
+			return "build→" + name + "(" + cf.normOf(st).str(a) + ")"
 		}
 		// method constructor on the cast value (IntoAnyObject)
 		var as []string
 		for _, a := range call.Args {
-			as = append(as, cf.norm.str(a))
+			as = append(as, cf.normOf(st).str(a))
 		}
-		return "build→" + name + "(" + strings.Join(as, ", ") + ") via " + cf.norm.str(call.Fun)
+		return "build→" + name + "(" + strings.Join(as, ", ") + ") via " + cf.normOf(st).str(call.Fun)
 	}
-	return "return " + cf.norm.str(r0)
+	return "return " + cf.normOf(st).str(r0)
 }
 
 // mbScalarSamples: payload samples for value structs with one basic-typed
